@@ -277,6 +277,18 @@ static void sc_pool() {
     }
 }
 
+// 6c. thread pool stopped by two parties at once: a job stops its own pool while the owner stops it too
+// (stop() is callable from any thread, incl. a pool thread; the hand-over of the worker handles must be one critical section)
+static void sc_pool_double_stop() {
+    for (int i = 0; i < ITER / 10 + 1; i++) {
+        thread_pool pool(2);
+        start_gate g(2);
+        pool.run_detached([&] { g.arrive(); pool.stop(); });
+        g.arrive();
+        pool.stop();
+    }
+}
+
 // 7. scheduler: thread mode, sleepers and cancel from other threads
 static void sc_scheduler() {
     for (int i = 0; i < ITER / 20 + 1; i++) {
@@ -406,7 +418,7 @@ static void sc_shared() {
 int main(int argc, char **argv) {
     struct S { const char *name; void (*fn)(); };
     S all[] = {{"future_poll", sc_future_poll}, {"future_await", sc_future_await}, {"future_compete", sc_future_compete},
-               {"mutex", sc_mutex}, {"mutex_window", sc_mutex_window}, {"queue", sc_queue}, {"pool", sc_pool}, {"scheduler", sc_scheduler}, {"scheduler_multi_start", sc_scheduler_multi_start},
+               {"mutex", sc_mutex}, {"mutex_window", sc_mutex_window}, {"queue", sc_queue}, {"pool", sc_pool}, {"pool_double_stop", sc_pool_double_stop}, {"scheduler", sc_scheduler}, {"scheduler_multi_start", sc_scheduler_multi_start},
                {"publisher", sc_publisher}, {"storage", sc_storage}, {"generator", sc_generator}, {"signal", sc_signal},
                {"shared", sc_shared}};
     if (argc > 2) ITER = atoi(argv[2]);
